@@ -5,6 +5,8 @@ import Ledger.Proofs.MachineStmt
     about the environment and the initial tracked balances. -/
 namespace Ledger.Machine
 
+variable {cfg : Cfg}
+
 /-- A value is acceptable: monetary amounts are non-negative, portions are specific. -/
 def ValGood : Value → Prop
   | .monetary _ (some n) => 0 ≤ n
@@ -57,7 +59,7 @@ theorem parsePortionSpecific_specific {t : String} {p : Portion} (h : parsePorti
       · exact ⟨_, newPortionSpecific_specific h⟩
     · cases h
 
-theorem parseValue_good {ty : Ty} {data : String} {v : Value} (h : parseValue ty data = .val v) :
+theorem parseValue_good {ty : Ty} {data : String} {v : Value} (h : parseValue cfg ty data = .val v) :
     ValGood v := by
   unfold parseValue at h
   cases ty with
@@ -65,8 +67,10 @@ theorem parseValue_good {ty : Ty} {data : String} {v : Value} (h : parseValue ty
   | asset => simp only at h; split at h <;> cases h; simp [ValGood]
   | number =>
     simp only at h
-    split at h <;> cases h
-    simp [ValGood]
+    split at h
+    · cases h
+    · split at h <;> cases h
+    · cases h; simp [ValGood]
   | string => simp only at h; cases h; simp [ValGood]
   | monetary =>
     simp only at h
@@ -88,8 +92,8 @@ theorem parseValue_good {ty : Ty} {data : String} {v : Value} (h : parseValue ty
       simp [ValGood]
     · cases h
 
-theorem parsePlainVars_good (vars : List (String × String)) :
-    (ds : List VarDecl) → (out : List (String × Parsed)) → parsePlainVars vars ds = .ok out →
+theorem parsePlainVars_good (cfg : Cfg) (vars : List (String × String)) :
+    (ds : List VarDecl) → (out : List (String × Parsed)) → parsePlainVars cfg vars ds = .ok out →
     ∀ kv ∈ out, ∀ v, kv.2 = .val v → ValGood v
   | [], out, h => by
     simp only [parsePlainVars] at h; cases h
@@ -111,8 +115,8 @@ theorem parsePlainVars_good (vars : List (String × String)) :
             rcases List.mem_cons.mp hkv with rfl | hkv
             · simp only at hv
               exact parseValue_good hv
-            · exact parsePlainVars_good vars ds r hr kv hkv v hv
-    · exact parsePlainVars_good vars ds out h
+            · exact parsePlainVars_good cfg vars ds r hr kv hkv v hv
+    · exact parsePlainVars_good cfg vars ds out h
 
 theorem EnvGood.append {env : Env} (h : EnvGood env) {x : String} {v : Value} (hv : ValGood v) :
     EnvGood (env ++ [(x, v)]) := by
@@ -121,10 +125,10 @@ theorem EnvGood.append {env : Env} (h : EnvGood env) {x : String} {v : Value} (h
   · exact h kv hkv
   · simp at hkv; subst hkv; exact hv
 
-theorem resolveVars_good (inp : Input) (plain : List (String × Parsed))
+theorem resolveVars_good (cfg : Cfg) (inp : Input) (plain : List (String × Parsed))
     (hplain : ∀ kv ∈ plain, ∀ v, kv.2 = .val v → ValGood v) :
     (ds : List VarDecl) → (env : Env) → (bvs : List BalVar) → (env' : Env) → (bvs' : List BalVar) →
-    resolveVars inp plain ds env bvs = .ok (env', bvs') → EnvGood env → EnvGood env'
+    resolveVars cfg inp plain ds env bvs = .ok (env', bvs') → EnvGood env → EnvGood env'
   | [], env, bvs, env', bvs', h, hg => by
     simp only [resolveVars] at h; cases h; exact hg
   | d :: ds, env, bvs, env', bvs', h, hg => by
@@ -132,7 +136,7 @@ theorem resolveVars_good (inp : Input) (plain : List (String × Parsed))
     split at h
     · split at h
       · rename_i v hl
-        exact resolveVars_good inp plain hplain ds _ _ env' bvs' h
+        exact resolveVars_good cfg inp plain hplain ds _ _ env' bvs' h
           (hg.append (hplain _ (lookup_mem plain _ _ hl) v rfl))
       · cases h
       · cases h
@@ -146,12 +150,12 @@ theorem resolveVars_good (inp : Input) (plain : List (String × Parsed))
             · cases h
             · cases h
             · rename_i v hp
-              exact resolveVars_good inp plain hplain ds _ _ env' bvs' h (hg.append (parseValue_good hp))
+              exact resolveVars_good cfg inp plain hplain ds _ _ env' bvs' h (hg.append (parseValue_good hp))
     · split at h
       · cases h
       · split at h
         · cases h
-        · exact resolveVars_good inp plain hplain ds _ _ env' bvs' h (hg.append (by simp [ValGood]))
+        · exact resolveVars_good cfg inp plain hplain ds _ _ env' bvs' h (hg.append (by simp [ValGood]))
 
 theorem setEnv_good {env : Env} (h : EnvGood env) (x : String) {v : Value} (hv : ValGood v) :
     EnvGood (setEnv env x v) := by
@@ -174,7 +178,7 @@ theorem foldl_setEnv_good (inp : Input) (live : List BalVar) (hl : ∀ bv ∈ li
 
 /-- Everything the proofs need from `prepare`. -/
 theorem prepare_ok {s : Script} {inp : Input} {env : Env} {bal : Balances} {pairs : List (String × String)}
-    (h : prepare s inp = .ok (env, bal, pairs)) :
+    (h : prepare cfg s inp = .ok (env, bal, pairs)) :
     EnvGood env ∧ bal.WF ∧ (∀ a c v, bal.get a c = some v → v = inp.balance a c) := by
   unfold prepare at h
   split at h
@@ -189,11 +193,11 @@ theorem prepare_ok {s : Script} {inp : Input} {env : Env} {bal : Balances} {pair
         split at hsv
         · cases hsv
         · cases hsv
-          exact parsePlainVars_good inp.vars s.vars _ hps
+          exact parsePlainVars_good cfg inp.vars s.vars _ hps
     split at h
     · cases h
     · rename_i env0 bvs hrv
-      have hg0 : EnvGood env0 := resolveVars_good inp plain hplain s.vars [] [] env0 bvs hrv
+      have hg0 : EnvGood env0 := resolveVars_good cfg inp plain hplain s.vars [] [] env0 bvs hrv
         (by intro kv hkv; cases hkv)
       unfold initBalances at h
       split at h
@@ -202,6 +206,7 @@ theorem prepare_ok {s : Script} {inp : Input} {env : Env} {bal : Balances} {pair
         split at h
         · cases h
         · dsimp only at h
+          generalize (if cfg.balanceVarsPerAddress = true then liveBalVars bvs else bvs) = live at h
           split at h
           · cases h
           · rename_i hneg
